@@ -423,7 +423,7 @@ func gen(tier, out string) {
 	}
 
 	// ---- random histories ----
-	nrand := 3000
+	nrand := 2000
 	if tier == "thorough" {
 		nrand = 25000
 	}
